@@ -652,6 +652,13 @@ theorem c14_iter_total (w : W) (k : Nat) (hI : Inv w) :
   rw [hlen ha]; simp [AList.keys]
 
 
+/-- the bulk insertion `store.update(iterable)` is a history of `add`s (`c15_bulk_insertion_reports_first_failure`): it
+    keeps the invariant, hence everything above holds after it as well -/
+theorem c14_bulk_insertion_inv (w : W) (k : Nat) (rs : List Ref) (hI : Inv w) : Inv (addMany w k rs).1 := by
+  rcases addMany_spec k rs w with ⟨_, h⟩ | ⟨p, _, _, _, _, h, _, _⟩
+  · rw [h]; exact c14_inv_reachable w _ hI
+  · rw [h]; exact c14_inv_reachable w _ hI
+
 /-! ### Non-vacuity -/
 
 /-- two instances, a stale replica, update(), a dropped and collected replica, an instance opened later -/
